@@ -106,24 +106,49 @@ Section Outer.
   Definition reps_of (ring_hosts : list Z) (i : nat) (th : Z) : list Z :=
     match nts_token info dcs dcr ring_hosts i th with Ok r => r | Crash _ => [] end.
 
-  (* an entry is computed without a panic, starts with the owner, and is the unguarded run of the loop *)
+  Lemma vinv_state0 dr : vinv (nts_state0 dcs dr) [].
+  Proof.
+    assert (Hg : forall dc, @getl Z [] dc = []) by reflexivity.
+    split; cbn [nts_state0 ns_replicas ns_skipped].
+    - constructor.
+    - intros x [].
+    - intros dc x. rewrite Hg. intros [].
+    - intros dc. rewrite Hg. constructor.
+    - intros dc x. rewrite Hg. intros [].
+  Qed.
+
+  (* an entry is computed without a panic, starts with the owner, has no host twice, only ring hosts, at most
+     the factor per DC, and is the unguarded run of the loop *)
   Lemma nts_token_ok ring_hosts i th :
     nth_error ring_hosts i = Some th -> In th hosts -> getz dcs (dc_of th) <> 0 ->
-    exists st suf, nts_run info dcs dcr (rotate i ring_hosts) (nts_state0 dcs dcr) = Ok st
+    exists st suf, nts_run_v info dcs dcr (rotate i ring_hosts) [] (nts_state0 dcs dcr) = Ok st
       /\ minv info dcs dcr st
       /\ ns_replicas st = th :: suf
-      /\ nts_token info dcs dcr ring_hosts i th = Ok (th :: suf).
+      /\ nts_token info dcs dcr ring_hosts i th = Ok (th :: suf)
+      /\ NoDup (th :: suf) /\ incl (th :: suf) ring_hosts
+      /\ forall dc, Z.of_nat (count_dc info dc (th :: suf)) <= getz dcs dc.
   Proof.
     intros Hn Hin Hrf. destruct (rotate_hd i ring_hosts th Hn) as [rest Hrot].
-    pose proof (minv_state0 dcr) as Hm0.
-    unfold nts_token. rewrite (nts_loop_run info dcs dcr dcs_keys _ _ Hm0). rewrite Hrot. simpl.
-    destruct (first_step th Hin Hrf) as [st1 [H1 H2]]. rewrite H1.
-    destruct (nts_step_ok info dcs dcr _ th Hm0) as [st1' [K1 [K2 _]]].
-    rewrite H1 in K1. inversion K1; subst st1'.
-    destruct (nts_run_ok info dcs dcr rest st1 K2) as [st [R1 [R2 [suf R3]]]].
-    rewrite R1. exists st, suf. rewrite R3, H2. simpl.
-    split; [reflexivity|]. split; [exact R2|]. split; [reflexivity|].
-    unfold host_equal. rewrite Z.eqb_refl. reflexivity.
+    pose proof (minv_state0 dcr) as Hm0. pose proof (vinv_state0 dcr) as Hv0.
+    unfold nts_token. rewrite (nts_loop_run info dcs dcr dcs_keys _ _ _ Hm0).
+    destruct (nts_run_v_ok info dcs dcr (rotate i ring_hosts) [] _ Hm0 Hv0) as [st [v' [R1 [R2 [R3 [R4 [suf0 R5]]]]]]].
+    (* the first iteration takes th *)
+    assert (Hhead : exists suf, ns_replicas st = th :: suf).
+    { rewrite Hrot in R1. simpl in R1.
+      destruct (first_step th Hin Hrf) as [st1 [H1 H2]]. rewrite H1 in R1.
+      destruct (nts_step_ok info dcs dcr _ th Hm0) as [st1' [K1 [K2 K3]]].
+      rewrite H1 in K1. inversion K1; subst st1'.
+      assert (Hv1 : vinv st1 [th]).
+      { destruct K3 as [[_ ->]|[_ Hk]]; [apply vinv_more; exact Hv0|].
+        apply (vinv_step info dcs dcr _ [] th st1 Hm0 Hv0); [intros []|exact Hk]. }
+      destruct (nts_run_v_ok info dcs dcr rest [th] st1 K2 Hv1) as [st' [v'' [S1 [_ [_ [_ [suf S5]]]]]]].
+      rewrite S1 in R1. inversion R1; subst st'. exists suf. rewrite S5, H2. reflexivity. }
+    destruct Hhead as [suf Hsuf]. rewrite R1. exists st, suf.
+    split; [reflexivity|]. split; [exact R2|]. split; [exact Hsuf|]. rewrite Hsuf.
+    split; [unfold host_equal; rewrite Z.eqb_refl; reflexivity|].
+    rewrite <- Hsuf. split; [apply (vi_nodup _ _ R3)|]. split.
+    - intros x Hx. apply (vi_reps _ _ R3) in Hx. destruct (R4 x Hx) as [[]|Hx']. apply rotate_In in Hx'. exact Hx'.
+    - intros dc. rewrite <- (mi_count info dcs dcr st R2). apply (mi_le info dcs dcr st R2).
   Qed.
 
   Definition good (e : T * Z) : bool := negb (getz dcs (dc_of (snd e)) =? 0).
@@ -141,7 +166,7 @@ Section Outer.
       + apply IH. intros i' tok' th' H. apply (Hl i' tok' th'). right. exact H.
       + destruct (Hl i tok th (or_introl eq_refl)) as [Hn Hin].
         apply Z.eqb_neq in E.
-        destruct (nts_token_ok ring_hosts i th Hn Hin E) as [st [suf [_ [_ [_ Htok]]]]].
+        destruct (nts_token_ok ring_hosts i th Hn Hin E) as [st [suf [_ [_ [_ [Htok _]]]]]].
         unfold reps_of at 1. rewrite Htok.
         rewrite IH by (intros i' tok' th' H; apply (Hl i' tok' th'); right; exact H).
         rewrite <- app_assoc. reflexivity.
@@ -162,77 +187,59 @@ Section Outer.
     unfold nts_entries, indexed. rewrite <- (filter_indexed_snd good r 0), !map_map. reflexivity.
   Qed.
 
-  (* the whole function: entries for the tokens of DCs with a factor, then the size check *)
+  (* the closing size check can no longer fail: when every DC of the ring holds replicas no token is left out *)
+  Lemma size_check_passes (r : @ring T) :
+    (forall e, In e r -> In (snd e) hosts) ->
+    (dcs_with_replicas dcs dcr =? length dcr)%nat && negb (length (filter good r) =? length r)%nat = false.
+  Proof.
+    intros Hr. destruct (dcs_with_replicas dcs dcr =? length dcr)%nat eqn:E1; [|reflexivity]. simpl.
+    apply Nat.eqb_eq in E1. apply negb_false_iff, Nat.eqb_eq. apply filter_length_all. intros e He.
+    pose proof (mk_dc_racks_inv info hosts) as Hri.
+    set (f := fun e : list Z * Z => match aget dcr (fst e) with Some _ => snd e >? 0 | None => false end) in *.
+    set (P := map fst (filter f dcs)). set (R := map fst dcr).
+    assert (HP : NoDup P) by (apply NoDup_map_filter; exact dcs_keys).
+    assert (Hlen : length P = length R) by (unfold P, R; rewrite !map_length; exact E1).
+    assert (HPR : incl P R).
+    { intros dc Hdc. unfold P in Hdc. apply in_map_iff in Hdc. destruct Hdc as [[k v] [<- Hf]].
+      apply filter_In in Hf. destruct Hf as [_ Hf]. unfold f in Hf. simpl in Hf. simpl.
+      destruct (aget dcr k) eqn:Ea; [|discriminate]. eapply aget_Some_in. exact Ea. }
+    assert (HRP : incl R P) by (apply NoDup_length_incl; [exact HP|lia|exact HPR]).
+    assert (HeR : In (dc_of (snd e)) R).
+    { apply (ri_key info _ _ Hri). exists (snd e). split; [apply Hr; exact He|reflexivity]. }
+    apply HRP in HeR. unfold P in HeR. apply in_map_iff in HeR. destruct HeR as [[k v] [Hk Hf]].
+    apply filter_In in Hf. destruct Hf as [Hin Hf]. unfold f in Hf. simpl in Hf, Hk. subst k.
+    destruct (aget dcr (dc_of (snd e))); [|discriminate].
+    unfold good. rewrite (getz_In dcs dcs_keys _ v Hin). apply negb_true_iff, Z.eqb_neq. lia.
+  Qed.
+
+  (* the whole function never panics: entries for the tokens of DCs with a factor *)
   Lemma nts_replica_map_eq (r : @ring T) :
     (forall e, In e r -> In (snd e) hosts) ->
-    nts_replica_map info dcs hosts r
-    = if (dcs_with_replicas dcs =? length dcr)%nat && negb (length (filter good r) =? length r)%nat
-      then Crash PanicSize else Ok (nts_entries r).
+    nts_replica_map info dcs hosts r = Ok (nts_entries r).
   Proof.
     intros Hr. unfold nts_replica_map.
     rewrite nts_outer_ok.
     2:{ intros i tok th H. apply indexed_In in H. split.
         - rewrite nth_error_map, H. reflexivity.
         - apply (Hr (tok, th)). eapply nth_error_In. exact H. }
-    simpl. fold (nts_entries r). rewrite nts_entries_length. reflexivity.
+    simpl. fold (nts_entries r). rewrite nts_entries_length, (size_check_passes r Hr). reflexivity.
   Qed.
 
-  (* never one of the three inner panics; the size panic exactly when as many keyspace DCs have a factor as
-     the ring has DCs and yet some ring token lies in a DC without a factor *)
-  Lemma nts_crash_iff (r : @ring T) c :
-    (forall e, In e r -> In (snd e) hosts) ->
-    (nts_replica_map info dcs hosts r = Crash c <->
-     c = PanicSize /\ dcs_with_replicas dcs = length dcr
-     /\ exists e, In e r /\ getz dcs (dc_of (snd e)) = 0).
+  (* every entry: no host twice, only ring hosts, at most the factor per DC, the token's owner first *)
+  Lemma nts_entries_general (r : @ring T) e :
+    (forall x, In x r -> In (snd x) hosts) -> In e (nts_entries r) ->
+    NoDup (snd e) /\ incl (snd e) (map snd r)
+    /\ (forall dc, Z.of_nat (count_dc info dc (snd e)) <= getz dcs dc)
+    /\ exists h, In (fst e, h) r /\ hd_error (snd e) = Some h.
   Proof.
-    intros Hr. rewrite (nts_replica_map_eq r Hr).
-    destruct (dcs_with_replicas dcs =? length dcr)%nat eqn:E1; simpl.
-    - apply Nat.eqb_eq in E1.
-      destruct (length (filter good r) =? length r)%nat eqn:E2; simpl.
-      + apply Nat.eqb_eq in E2. split; [discriminate|]. intros [_ [_ [e [He1 He2]]]].
-        pose proof (proj1 (filter_length_all good r) E2 e He1) as Hg. unfold good in Hg. rewrite He2 in Hg. discriminate.
-      + apply Nat.eqb_neq in E2. split; [|intros [-> _]; reflexivity].
-        intros H. inversion H; subst c. split; [reflexivity|]. split; [exact E1|].
-        destruct (existsb (fun e => negb (good e)) r) eqn:Ex.
-        * apply existsb_exists in Ex. destruct Ex as [e [He1 He2]]. exists e. split; [exact He1|].
-          unfold good in He2. rewrite negb_involutive in He2. apply Z.eqb_eq. exact He2.
-        * exfalso. apply E2. apply filter_length_all. intros x Hx.
-          destruct (good x) eqn:Eg; [reflexivity|].
-          assert (Hex : existsb (fun e => negb (good e)) r = true) by (apply existsb_exists; exists x; rewrite Eg; tauto).
-          congruence.
-    - split; [discriminate|]. intros [_ [H _]]. apply Nat.eqb_neq in E1. contradiction.
-  Qed.
-
-  (* that situation needs a keyspace DC with a positive factor that no host of the ring is in *)
-  Lemma crash_needs_unknown_dc (r : @ring T) :
-    (forall e, In e r -> In (snd e) hosts) ->
-    dcs_with_replicas dcs = length dcr ->
-    (exists e, In e r /\ getz dcs (dc_of (snd e)) = 0) ->
-    exists dc, 0 < getz dcs dc /\ forall h, In h hosts -> dc_of h <> dc.
-  Proof.
-    intros Hr Hlen [e [He1 He2]].
-    pose proof (mk_dc_racks_inv info hosts) as Hri.
-    set (P := map fst (filter (fun e => snd e >? 0) dcs)).
-    set (R := map fst dcr).
-    assert (HP : NoDup P) by (apply NoDup_map_filter; exact dcs_keys).
-    assert (HlenP : length P = length R).
-    { unfold P, R. rewrite !map_length. exact Hlen. }
-    assert (HinP : forall dc, In dc P <-> 0 < getz dcs dc).
-    { intros dc. unfold P. rewrite in_map_iff. split.
-      - intros [[k v] [Hk Hf]]. simpl in Hk. subst k. apply filter_In in Hf. destruct Hf as [Hf1 Hf2]. simpl in Hf2.
-        rewrite (getz_In dcs dcs_keys dc v Hf1). lia.
-      - intros Hpos. exists (dc, getz dcs dc). split; [reflexivity|]. apply filter_In. split; [|simpl; lia].
-        apply getz_nonzero_In. lia. }
-    destruct (Forall_dec (fun dc => In dc R) (fun dc => in_dec str_eq_dec dc R) P) as [Hall|Hnot].
-    - exfalso. rewrite Forall_forall in Hall.
-      assert (Hincl : incl R P).
-      { apply NoDup_length_incl; [exact HP|lia|exact Hall]. }
-      assert (HeR : In (dc_of (snd e)) R).
-      { apply (ri_key info _ _ Hri). exists (snd e). split; [apply Hr; exact He1|reflexivity]. }
-      apply Hincl, HinP in HeR. lia.
-    - apply (neg_Forall_Exists_neg (fun dc => in_dec str_eq_dec dc R)) in Hnot.
-      apply Exists_exists in Hnot. destruct Hnot as [dc [Hdc1 Hdc2]].
-      exists dc. split; [apply HinP; exact Hdc1|].
-      intros h Hh Heq. apply Hdc2. apply (ri_key info _ _ Hri). exists h. tauto.
+    intros Hr He. unfold nts_entries in He. apply in_map_iff in He. destruct He as [[i [tok th]] [<- Hx]].
+    apply filter_In in Hx. destruct Hx as [Hx Hg]. simpl in Hg. simpl.
+    apply indexed_In in Hx.
+    assert (Hn : nth_error (map snd r) i = Some th) by (rewrite nth_error_map, Hx; reflexivity).
+    assert (Hrf : getz dcs (dc_of th) <> 0) by (unfold good in Hg; simpl in Hg; apply negb_true_iff, Z.eqb_neq in Hg; exact Hg).
+    assert (Hin : In th hosts) by (apply (Hr (tok, th)); eapply nth_error_In; exact Hx).
+    destruct (nts_token_ok (map snd r) i th Hn Hin Hrf) as [st [suf [_ [_ [_ [Htok [K1 [K2 K3]]]]]]]].
+    unfold reps_of. rewrite Htok. split; [exact K1|]. split; [exact K2|]. split; [exact K3|].
+    exists th. split; [eapply nth_error_In; exact Hx|reflexivity].
   Qed.
 End Outer.
